@@ -1005,6 +1005,10 @@ class Len(Reduction):
         if isinstance(self.frame, Index) and self.frame.frame._is_length_preserving:
             return Len(self.frame.frame)
 
+        if isinstance(self.frame, Projection) and self.frame.frame.ndim < 2:
+            # labels selected from a series: as many rows as labels found
+            return
+
         # Pass through Elemwises, unless we just introduced an Index
         if self.frame._is_length_preserving and not isinstance(self.frame, Index):
             if _operands_share_rows(self.frame):
